@@ -3,6 +3,7 @@
 from __future__ import annotations
 
 import ast
+import re
 
 from .. import sqlt
 from ..connectmodel import ConnectHooks, Point
@@ -343,7 +344,35 @@ def rule_bookkeeping_upserts(ctx):
     rule_keys(ctx)
 
 
+def rule_bookkeeping_removed_before_drop(ctx):
+    """C19.g: rows fakesnow keeps *by name* about an object (comment, declared lengths) are removed before the engine statement
+    that drops the object, never after it: once the DROP has committed, the name is free — another session's CREATE … COMMENT can
+    land before a trailing clean-up, which would then delete the new object's rows (an outcome no serial order produces)."""
+    from .common import text_of, traces
+
+    prog = ctx.prog
+    n = 0
+    for kind in ("DROP TABLE", "DROP VIEW", "DROP SCHEMA", "DROP DATABASE"):
+        for tr in traces(prog, kind):
+            if tr.path.outcome != "return" or not tr.engine_sql:
+                continue
+            n += 1
+            texts = [text_of(s_) for s_ in tr.engine_sql]
+            user_at = next((i for i, s_ in enumerate(tr.engine_sql) if isinstance(s_, Sym) and s_.origin and s_.origin[0] == "sql"), None)
+            late = [t for i, t in enumerate(texts) if user_at is not None and i > user_at
+                    and re.search(r"\b(DELETE\s+FROM|TRUNCATE|UPDATE)\b[^;]*_fs_\w+", t, re.I)]
+            ctx.ob("C19.g", f"{kind}: no by-name bookkeeping rows are removed after the engine has dropped the object", not late, "fakesnow/cursor.py",
+                   " ".join(late[0].split())[:70] if late else "")
+            if late:
+                ctx.violation("C19.g", "cursor", "FakeSnowflakeCursor._execute", f"{kind}: bookkeeping rows deleted after the drop", "fakesnow/cursor.py",
+                              f"after the engine ran the {kind}, a separate statement `{' '.join(late[0].split())[:80]}…` removes the rows recorded under the "
+                              f"object's name: a CREATE … COMMENT of the same name by another session between the two loses its comment / lengths, "
+                              f"although both statements reported success")
+    ctx.floor("C19.g drop traces", n, 4)
+
+
 RULES = [
+    ("C19.g", rule_bookkeeping_removed_before_drop, ("quick", "thorough")),
     ("C19.f", rule_bookkeeping_upserts, ("quick", "thorough")),
     ("C19.e", rule_temporary_stays_private, ("quick", "thorough")),
     ("C19.d", rule_own_creates_idempotent, ("quick", "thorough")),
